@@ -37,7 +37,7 @@ class SpiMasterHarness(Harness):
     """env = (xfer, cs, last, mon, regs, nsw)
        xfer: None | (word, L, sword, pos, age)   sword = the L bits the slave model answers (MSB first), pos = falling pin-clock edges seen
        cs:   value of the chip-select register in the previous cycle; last: None | (L, expected low L bits of miso) of the last transfer
-       mon:  (pclk, pmosi, pcsn, pulses, outbits, tsr, thigh, idle, boot) pin history for the protocol rules
+       mon:  (pclk, pmosi, pcsn, pulses, outbits, inbits, tsr, thigh, idle, boot) pin history for the protocol rules
        regs: CSR front end only - register values visible to the core in this cycle (length, mosi, cs, cs_mode, loopback, start pulse); nsw: answer for the pending start"""
     live_queries = (("spi.master.stuck", BUSY, 0, (), "a transfer never completes (done stays 0 for ever)"),)
 
@@ -92,7 +92,7 @@ class SpiMasterHarness(Harness):
         return out
 
     def env_init(self):
-        mon = (0, 0, 0, 0, 0, 0, 0, 0, 1)
+        mon = (0, 0, 0, 0, 0, 0, 0, 0, 0, 1)
         cs0 = 1
         return (None, cs0, None, mon, (0, 0, 1, 0, 0, 0) if self.csr else None, 0)
 
@@ -170,7 +170,7 @@ class SpiMasterHarness(Harness):
     def observe(self, v, env, ch):
         i = self.i
         xfer0, pcs, last, mon = env[0], env[1], env[2], env[3]
-        pclk, pmosi, pcsn, pulses, outbits, tsr, thigh, idle, boot = mon
+        pclk, pmosi, pcsn, pulses, outbits, inbits, tsr, thigh, idle, boot = mon
         st, L_port, w_port, cs_now, csm, lb = self.ports(env, ch)
         div = self.div
         allhigh = self.allhigh
@@ -215,6 +215,7 @@ class SpiMasterHarness(Harness):
                 return env, ("spi.master.clk_period", f"{tsr + 1} cycles between rising clock edges, clk_divider = {div}"), 0
             pulses += 1
             outbits = (outbits << 1) | mosi
+            inbits = (inbits << 1) | v[i["pmiso"]]
             tsr, thigh = 0, 1
         else:
             tsr += 1
@@ -236,6 +237,8 @@ class SpiMasterHarness(Harness):
                         return env, ("spi.master.cs_framing", f"cs_n released after {pulses} of {L} clock pulses (clock pin {pclk}->{clk})"), 0
                 if xfer is None and csn != allhigh and idle >= 2:
                     return env, ("spi.master.cs_idle", "cs_n still low two cycles after the end of the transfer"), 0
+        if boot:
+            csn = allhigh          # cs_n resets to 0 for one cycle (register reset value): not judged
         finished = False
         if irq:
             if xfer is None:
@@ -252,16 +255,16 @@ class SpiMasterHarness(Harness):
             if age > (L + 3)*div + 4:
                 return env, ("spi.master.timeout", f"no irq {age} cycles after start (length {L}, divider {div})"), 0
         if finished:
-            last = (L, (outbits & ((1 << L) - 1)) if lb else sword)
+            last = (L, (outbits if lb else inbits) & ((1 << L) - 1))
             self.completed += 1
             xfer2 = None
-            mon2 = (clk, mosi, csn, 0, 0, 0, 0, 0, 0)
+            mon2 = (clk, mosi, csn, 0, 0, 0, 0, 0, 0, 0)
         elif xfer is not None:
             xfer2 = (word, L, sword, pos, age)
-            mon2 = (clk, mosi, csn, pulses, outbits, tsr, thigh, 0, 0)
+            mon2 = (clk, mosi, csn, pulses, outbits, inbits, tsr, thigh, 0, 0)
         else:
             xfer2 = None
-            mon2 = (clk, mosi, csn, 0, 0, 0, 0, min(idle + 1, 2), 0)
+            mon2 = (clk, mosi, csn, 0, 0, 0, 0, 0, min(idle + 1, 2), 0)
         regs2, nsw2 = None, 0
         if self.csr:
             regs2, nsw2 = self._csr_next(env, ch)
